@@ -42,9 +42,15 @@ def _params(fn, drop_self):
     pos = [x.arg for x in a.posonlyargs + a.args]
     for pn, d in zip(pos[len(pos) - len(a.defaults):], a.defaults):
         defaults[pn] = d
-    if a.vararg:
-        return None, None
     npos = len(names)
+    if a.vararg:
+        # *rest collects the surplus positional arguments: bound to a tuple display of them
+        if a.kwonlyargs or a.kwarg:
+            return None, None
+        names.append(a.vararg.arg)
+        defaults["*rest"] = a.vararg.arg
+        defaults["*npos"] = npos
+        return names, defaults
     for x, d in zip(a.kwonlyargs, a.kw_defaults):
         names.append(x.arg)
         if d is not None:
@@ -62,6 +68,26 @@ def _params(fn, drop_self):
 def _bind(call, names, defaults):
     if any(isinstance(x, ast.Starred) for x in call.args) or any(k.arg is None for k in call.keywords):
         return None
+    rest = defaults.get("*rest")
+    if rest is not None:
+        npos = defaults["*npos"]
+        if call.keywords and any(k.arg == rest for k in call.keywords):
+            return None
+        m = {}
+        for n, a in zip(names[:npos], call.args[:npos]):
+            m[n] = a
+        m[rest] = ast.Tuple(elts=list(call.args[npos:]), ctx=ast.Load())
+        for k in call.keywords:
+            if k.arg in m or k.arg not in names[:npos]:
+                return None
+            m[k.arg] = k.value
+        for n in names[:npos]:
+            if n not in m:
+                if n in defaults:
+                    m[n] = defaults[n]
+                else:
+                    return None
+        return m
     if len(call.args) > defaults.get("*npos", len(names)):
         return None
     m = {}
@@ -1402,6 +1428,11 @@ def _unzip_literal_tables(fnode):
     """a, b, c = (F(col) for col in zip(*[(a1, b1, c1), (a2, b2, c2), ...]))  ->  a, b, c = (F((a1, a2, ..)), F((b1, b2, ..)), F((c1, c2, ..))):
     a table written row by row and unzipped into its columns is the same columns written out"""
     for st in ast.walk(fnode):
+        # (tuple(<generator>) / list(<generator>) unpacked into names is the generator unpacked into names)
+        if isinstance(st, ast.Assign) and len(st.targets) == 1 and isinstance(st.targets[0], (ast.Tuple, ast.List)) and isinstance(st.value, ast.Call) \
+                and isinstance(st.value.func, ast.Name) and st.value.func.id in ("tuple", "list") and len(st.value.args) == 1 and not st.value.keywords \
+                and isinstance(st.value.args[0], (ast.GeneratorExp, ast.ListComp)):
+            st.value = st.value.args[0]
         if not (isinstance(st, ast.Assign) and len(st.targets) == 1 and isinstance(st.targets[0], (ast.Tuple, ast.List))
                 and isinstance(st.value, (ast.GeneratorExp, ast.ListComp)) and len(st.value.generators) == 1 and not st.value.generators[0].ifs
                 and isinstance(st.value.generators[0].target, ast.Name)):
@@ -1415,7 +1446,7 @@ def _unzip_literal_tables(fnode):
             rows = it.args[0].value.elts
             if rows and all(isinstance(r, (ast.Tuple, ast.List)) and len(r.elts) == n and all(_literal_tree(x) for x in r.elts) for r in rows):
                 cols = [ast.Tuple(elts=[clone(r.elts[k]) for r in rows], ctx=ast.Load()) for k in range(n)]
-        elif isinstance(it, (ast.Tuple, ast.List)) and len(it.elts) == n and all(_literal_tree(x) for x in it.elts):
+        elif isinstance(it, (ast.Tuple, ast.List)) and len(it.elts) == n and all(_literal_tree(x) or _simple_arg(x) for x in it.elts):
             cols = [clone(x) for x in it.elts]
         if cols is None or not _pure_expr(st.value.elt):
             continue
